@@ -278,6 +278,29 @@ func C13(run *core.Run) {
 			&mocrelay.ClientReqMsg{SubscriptionID: "s3", ReqFilters: []*mocrelay.ReqFilter{{}}},
 		}
 	}
+	// the same messages in two more orders (which one a composition gets depends on the seed): started
+	// in the middle with an AUTH and a three-filter COUNT in front, and block-wise reversed
+	base := mkHist
+	mkHist = func(tag string) []mocrelay.ClientMsg {
+		h := base(tag)
+		switch (int(run.Seed) + len(tag)) % 3 {
+		case 1:
+			auth := &mocrelay.ClientAuthMsg{Event: conc.Event(abs.Event{ID: "c13_auth_" + tag, Author: "a", Kind: 22242, TS: 1}, "")}
+			cnt := &mocrelay.ClientCountMsg{SubscriptionID: "c3", ReqFilters: []*mocrelay.ReqFilter{{}, {}, {}}}
+			h = append([]mocrelay.ClientMsg{auth, cnt}, append(append([]mocrelay.ClientMsg{}, h[6:]...), h[:6]...)...)
+		case 2:
+			var r []mocrelay.ClientMsg
+			for i := len(h); i > 0; i -= 3 {
+				lo := i - 3
+				if lo < 0 {
+					lo = 0
+				}
+				r = append(r, h[lo:i]...)
+			}
+			h = r
+		}
+		return h
+	}
 	names := []string{"default", "cache", "router", "sqlite", "merge2", "merge3"}
 	stacks := []int{0, 1, 2}
 	if !run.Thorough() {
